@@ -128,7 +128,8 @@ func (s *SchemaValidator) Applies(source interface{}, _ reflect.Kind) bool {
 // Validate validates the data against the schema
 func (s *SchemaValidator) Validate(data interface{}) *Result {
 	if s == nil {
-		return emptyResult
+		// not the shared empty result: this one is handed to the caller, who may add to it
+		return &Result{MatchCount: emptyResult.MatchCount}
 	}
 
 	if s.Options.recycleValidators {
